@@ -39,8 +39,8 @@ impl RawTransaction { pub fn inputs(&self) -> SVec<CellInput> { self.inputs } pu
 impl Transaction { pub fn raw(&self) -> RawTransaction { self.raw } pub fn calc_tx_hash(&self) -> Byte32 { self.hash } }
 #[derive(Clone, Copy, Default)] pub struct RawHeader { pub number: u64 }
 impl RawHeader { pub fn number(&self) -> PU64 { PU64(self.number) } }
-#[derive(Clone, Copy, Default)] pub struct Header { pub raw: RawHeader }
-impl Header { pub fn raw(&self) -> RawHeader { self.raw } }
+#[derive(Clone, Copy, Default)] pub struct Header { pub raw: RawHeader, pub hash: Byte32 }
+impl Header { pub fn raw(&self) -> RawHeader { self.raw } pub fn calc_header_hash(&self) -> Byte32 { self.hash } }
 #[derive(Clone, Copy, Default)] pub struct Block { pub header: Header, pub hash: Byte32, pub txs: SVec<Transaction> }
 impl Block { pub fn header(&self) -> Header { self.header } pub fn transactions(&self) -> SVec<Transaction> { self.txs } pub fn calc_header_hash(&self) -> Byte32 { self.hash } pub fn extension(&self) -> Option<u8> { None } }
 pub struct HeaderWithExtension { pub header: Header, pub extension: Option<u8> }
@@ -104,10 +104,12 @@ impl<K: Copy + PartialEq, V: Copy> HashMap<K, V> {
     pub fn insert(&mut self, k: K, v: V) { let mut i = 0; while i < self.n { if let Some((kk, _)) = &self.a[i] { if *kk == k { self.a[i] = Some((k, v)); return; } } i += 1; } assert!(self.n < CAP, "MODEL-BOUND: HashMap capacity"); self.a[self.n] = Some((k, v)); self.n += 1; }
 }
 #[derive(Clone, Copy)] pub struct ScriptStatus { pub script: Script, pub script_type: ScriptType, pub block_number: u64 }
-pub struct Storage { pub scripts: [ScriptStatus; 2], pub stored: [(Byte32, u64, u32, Transaction); 1] }
+pub struct Storage { pub scripts: [ScriptStatus; 2], pub stored: [(Byte32, u64, u32, Transaction); 1], pub hdr_stored: bool }
 impl Storage {
     fn batch(&self) -> Batch { Batch { ops: [Op { put: false, k: MKey::None, v: MVal::None }; OPS], n: 0 } }
     pub fn get_filter_scripts(&self) -> [ScriptStatus; 2] { self.scripts }
+    /// whether the header of the block at hand is already stored (fetched earlier, or indexed before a fork switch) is ARBITRARY
+    pub fn get_header(&self, _h: &Byte32) -> Option<Header> { if self.hdr_stored { Some(Header::default()) } else { None } }
     fn get_transaction(&self, h: &Byte32) -> Option<(BlockNumber, TxIndex, Transaction)> { if self.stored[0].0 == *h { Some((self.stored[0].1, self.stored[0].2, self.stored[0].3)) } else { None } }
 }
 
@@ -135,13 +137,13 @@ mod harness {
         let mut prev = any_tx(10, 0, WITH_TYPE);
         let st = Storage {
             scripts: [ScriptStatus { script: Script(1), script_type: ScriptType::Lock, block_number: 0 }, ScriptStatus { script: Script(2), script_type: ScriptType::Type, block_number: 0 }],
-            stored: [(Byte32(10), gen_bn, gen_ti, prev)],
+            stored: [(Byte32(10), gen_bn, gen_ti, prev)], hdr_stored: kani::any(),
         };
         let t0 = any_tx(20, 1, WITH_TYPE);
         let t1 = any_tx(21, 1, WITH_TYPE);
         let ntx: usize = NTX;
         let mut txs = SVec::default(); txs.n = ntx; txs.a[0] = t0; txs.a[1] = t1;
-        let block = Block { header: Header { raw: RawHeader { number: bn } }, hash: Byte32(7), txs };
+        let block = Block { header: Header { raw: RawHeader { number: bn }, hash: Byte32(7) }, hash: Byte32(7), txs };
         st.filter_block(block);
         unsafe {
             assert!(COMMITS == 1, "SPEC index: the block must be indexed by exactly one atomic batch");
@@ -175,6 +177,35 @@ mod harness {
             // the cell live-row value is the creating transaction hash
             let mut i = 0; while i < COMMITTED.n { if COMMITTED.ops[i].put && COMMITTED.ops[i].k.is_cell() { let (n, ti) = (COMMITTED.ops[i].k.number(), COMMITTED.ops[i].k.tx_index()); assert!(n == bn && (ti as usize) < ntx && COMMITTED.ops[i].v == MVal::Hash(txs.a[ti as usize].hash.0), "SPEC index: a live-cell row does not point at its creating transaction"); } i += 1; }
             if NTX == 2 { kani::cover!(expect_dels == 2 && expect_puts >= 1, "two spends and a new cell"); kani::cover!(expect_dels >= 1 && txs.a[1].raw.inputs.a[0].prev.tx_hash == Byte32(20), "a same-block spend"); } else { kani::cover!(expect_dels == 2 && expect_puts >= 1, "a spend of a lock+type cell and a new cell"); kani::cover!(expect_dels == 0 && expect_puts == 0, "untouched block"); }
+        }
+    }
+    /// add_fetched_header / add_fetched_tx (fetch_header / fetch_transaction results): ONE atomic batch that ALWAYS (re)writes the header row and the
+    /// number -> hash mapping of the proved block - get_transaction_with_header resolves the block BY NUMBER, so a mapping left over from an abandoned
+    /// branch (or from a sibling fetched earlier) must be overwritten - plus, for a transaction, its row (number, u32::MAX, tx)
+    #[cfg(fb_fetched)] #[kani::proof] #[kani::unwind(16)] fn fetched_rows() {
+        let st = Storage {
+            scripts: [ScriptStatus { script: Script(1), script_type: ScriptType::Lock, block_number: 0 }, ScriptStatus { script: Script(2), script_type: ScriptType::Type, block_number: 0 }],
+            stored: [(Byte32(10), kani::any(), kani::any(), any_tx(10, 0, true))], hdr_stored: kani::any(),
+        };
+        let n: u64 = kani::any(); let h: u8 = kani::any();
+        let hwe = HeaderWithExtension { header: Header { raw: RawHeader { number: n }, hash: Byte32(h) }, extension: None };
+        unsafe { COMMITS = 0; COMMITTED.n = 0; }
+        if kani::any() {
+            st.add_fetched_header(&hwe);
+            unsafe {
+                assert!(COMMITS == 1 && COMMITTED.n == 2, "SPEC fetched header: not exactly one atomic batch of (header row, number -> hash mapping)");
+                assert!(has_val(MKey::BlockHash(h), MVal::Header(n)) && has_val(MKey::BlockNumber(n), MVal::Hash(h)), "SPEC fetched header: header row / number -> hash mapping of the proved block not written");
+            }
+        } else {
+            let th: u8 = kani::any();
+            let tx = any_tx(th, 1, true);
+            st.add_fetched_tx(&tx, &hwe);
+            unsafe {
+                assert!(COMMITS == 1 && COMMITTED.n == 3, "SPEC fetched transaction: not exactly one atomic batch of (header row, number -> hash mapping, transaction row)");
+                assert!(has_val(MKey::BlockHash(h), MVal::Header(n)) && has_val(MKey::BlockNumber(n), MVal::Hash(h)), "SPEC fetched transaction: header row / number -> hash mapping of the proved block not (re)written: get_transaction would report another block for it");
+                assert!(has_val(MKey::TxHash(th), MVal::Tx(n, u32::MAX, th)), "SPEC fetched transaction: transaction row is not (block number, u32::MAX, tx)");
+                kani::cover!(st.hdr_stored, "the header was stored before");
+            }
         }
     }
     #[cfg(fb_small)] #[kani::proof] #[kani::unwind(16)] fn filter_block_one_tx() { filter_block_step::<true, 1>(); }
